@@ -74,7 +74,7 @@ class Prop(core.Prop):
 
     def bounds(self, tier):
         return {'t': [1, 2] if tier == 'quick' else [1, 2, 3], 'z': [1, 2], 'x': [1, 2, 3],
-                'kinds': [['A', 'M', 'B', 'X', 'Zx', 'S', 'M0'], ['A', 'M', 'B', 'Zx', 'S']],
+                'kinds': [['A', 'M', 'B', 'X', 'Zx', 'S', 'M0', 'Mn', 'Sw'], ['A', 'M', 'B', 'Zx', 'S']],
                 'ioapi': 'gridded ioapi_base files TSTEP<=4 x LAY,ROW,COL<=2; 1-2 selected dimensions',
                 'max_dims_selected': 2 if tier == 'quick' else 3,
                 'selectors_per_axis(n=3)': len(selectors(3, tier)),
@@ -112,6 +112,7 @@ class Prop(core.Prop):
         idims = ['TSTEP', 'LAY', 'ROW', 'COL']
         for nt, nl, nr, nc, start in ((4, 2, 2, 2, 0), (1, 1, 1, 1, 1), (3, 2, 1, 2, 2)):
             rec = ioapi_u.recipe(nt=nt, nl=nl, nr=nr, nc=nc, nv=2, start=start)
+            rec['longname'] = True
             for r in (1, 2):
                 for sub in itertools.combinations(idims, r):
                     if tier == 'quick' and r == 2 and 'TSTEP' not in sub and nt != 4:
